@@ -147,6 +147,8 @@ void logf(const char* fmt, ...) __attribute__((format(printf, 1, 2)));
 // `secs` wall seconds while a run is active, reports verdict "hang".
 void start_watchdog(int secs);
 
+int ignore_depth();   // > 0 while the calling thread is inside simulator / harness code
+
 // TSan ignore regions for simulator/harness code (no-ops in other variants)
 struct IgnoreScope {
     IgnoreScope();
